@@ -477,6 +477,36 @@ func runC05(ctx *Ctx) error {
 				lib.Policy[mid] = fbb.Defer
 			}
 		}
+		if i%10 == 6 {
+			// the peer's one proposal line sums to a multiple of 256 (or to 1, 128 more): the block
+			// checksum it sends is 00 (FF, 80)
+			want := []int{0, 1, 128}[(i/10)%3]
+			for k := 0; k < 8000; k++ {
+				mid := "T" + r.StringFrom(alnumUpper, 3+r.Intn(9))
+				if used[mid] {
+					continue
+				}
+				m := r.Message("REFPEER", mid)
+				d, _ := m.Bytes()
+				cd := compressB2(d)
+				l := fmt.Sprintf("FC EM %s %d %d 0\r", mid, len(d), len(cd))
+				sum := 0
+				for j := 0; j < len(l); j++ {
+					sum += int(l[j])
+				}
+				if sum%256 == want {
+					for _, o := range peer.offer {
+						delete(sent, o.Mid)
+						delete(lib.Policy, o.Mid)
+					}
+					used[mid] = true
+					peer.offer = []peerMsg{{Mid: mid, Data: d, CData: cd, Title: "tuned"}}
+					sent[mid] = d
+					peer.dupMIDs = false
+					break
+				}
+			}
+		}
 		if (i == 5 || i == 77) && len(lib.Outbox) == 0 {
 			lib.Outbox = append(lib.Outbox, r.Message(lib.Mycall, r.Mid()))
 		}
